@@ -28,6 +28,9 @@ def main():
     subprocess.run(["git", "-C", "/repo", "worktree", "add", "--detach", wt, "HEAD"], check=True, stdout=subprocess.DEVNULL, stderr=subprocess.DEVNULL)
     rc = subprocess.run(["git", "-C", wt, "apply", patch]).returncode
     if rc != 0:
+        # /repo's HEAD has moved since the change was written (later hook / fix commits): retry with fuzz
+        rc = subprocess.run("patch -p1 --fuzz=3 --no-backup-if-mismatch < %s" % patch, shell=True, cwd=wt).returncode
+    if rc != 0:
         print("PATCH DOES NOT APPLY to /repo HEAD")
         result = 2
     else:
